@@ -7,14 +7,15 @@ off-by-one constants, flipped booleans, break<->continue) is applied to a scratc
 repository's own tests is "suite" (not interesting: the brief asks for changes that pass them);
 the others are run against the quick tier of the checks (VERIF_REPO=<worktree>), the properties
 anchored in the mutated package first, until one reports a violation ("detected") or all 20 have
-passed ("survived"). Results are appended to sensitivity/sweep.jsonl; the run is resumable.
+passed ("survived"). Results are appended to sensitivity/sweep.jsonl (or $SWEEP_OUT); the run is resumable and
+records are keyed by file, function, operator and description so that they survive edits of /repo.
 
 usage: tools/sweep.py [--workers N] [--limit K] [--ids a,b,c] [--only-op OP] [--files SUBSTR]
 """
 import argparse, json, os, random, shutil, subprocess, sys, threading, time
 
 ROOT = os.path.dirname(os.path.dirname(os.path.abspath(__file__)))
-OUT = os.path.join(ROOT, "sensitivity", "sweep.jsonl")
+OUT = os.environ.get("SWEEP_OUT") or os.path.join(ROOT, "sensitivity", "sweep.jsonl")
 SCRATCH = "/tmp/msweep"
 ENV = dict(os.environ, GOFLAGS="-mod=mod", GOPROXY="off", GOSUMDB="off", GOTOOLCHAIN="local")
 ALL = ["C%02d" % i for i in range(1, 21)]
@@ -114,12 +115,19 @@ def main():
         return 2
     rc, out = sh([mutator, "-root", "/repo", "-list"], ROOT, 120)
     points = [json.loads(l) for l in out.splitlines() if l.startswith("{")]
+    # a key that survives edits elsewhere in the sources: file, function, operator, description and
+    # the occurrence number of that tuple (ids and line numbers shift when /repo changes)
+    seen = {}
+    for p in points:
+        base = "%s|%s|%s|%s" % (p["file"], p["func"], p["op"], p["desc"])
+        seen[base] = seen.get(base, 0) + 1
+        p["key"] = "%s|%d" % (base, seen[base])
     head = subprocess.run(["git", "-C", "/repo", "rev-parse", "--short", "HEAD"], stdout=subprocess.PIPE, text=True).stdout.strip()
     done = {}
     if os.path.exists(OUT):
         for l in open(OUT):
             r = json.loads(l)
-            done[r["id"]] = r["outcome"]
+            done[r["key"]] = r["outcome"]
     redo = set(filter(None, a.redo.split(",")))
     if redo:
         keep = [l for l in open(OUT) if json.loads(l)["outcome"] not in redo]
